@@ -65,6 +65,7 @@ LEAVES = [
     L("enum_case", {"type": "string", "enum": ["Foo", "foo", "FOO"]}, enf=True, strish=True),
     L("enum_kw", {"type": "string", "enum": ["type", "self", "Self", "ref"]}, enf=True, strish=True),
     L("enum_one", {"type": "string", "enum": ["only"]}, enf=True, strish=True),
+    L("enum_collide", {"type": "string", "enum": ["Foo_Bar", "FooBar", "Content-Type", "ContentType", "a_b", "a-b"]}, enf=True, strish=True),   # identifiers collide: fallback naming
     L("enum_brace", {"type": "string", "enum": ["{x}", "a}", "{{", "%s {}"]}, enf=True, strish=True),
     L("enum_excl", {"type": "string", "enum": ["a", "bbb"], "maxLength": 2}, enf=True, strish=True),
     L("enum_mb", {"type": "string", "enum": ["éé", "abc"], "maxLength": 2}, enf=True, strish=True),
@@ -226,6 +227,10 @@ SOLO_COMPOSITES = [
     L("allof_prop_enum", {"allOf": [obj({"name": STR, "k": {"type": "string", "enum": ["a", "b"]}}, ["name"]), obj({"k": {"type": "string", "enum": ["b", "c"]}})]}),
     L("allof_prop_obj", {"allOf": [obj({"name": STR, "o": obj({"x": INT})}, ["name"]), obj({"o": obj({"y": STR}, ["y"])})]}),
     L("allof_prop_array", {"allOf": [obj({"name": STR, "v": {"type": "array", "items": INT}}, ["name"]), obj({"v": {"type": "array", "minItems": 1}})]}),
+    # an inline object carrying BOTH its own default and property defaults served by the generic helpers (default_bool, default_u64, ..)
+    L("inline_defaults_both", obj({"retry": {"type": "object", "default": {"enabled": True, "attempts": 3},
+                                             "properties": {"enabled": {"type": "boolean", "default": True}, "attempts": {"type": "integer", "default": 3},
+                                                            "floor": {"type": "integer", "default": -4}, "nz": {"type": "integer", "format": "uint32", "minimum": 1, "default": 2}}}}), enf=True),
     # scale family: containers past any plausible small-size fast path (> 16 / > 32 entries)
     L("enum_20", {"type": "string", "enum": ["v%02d" % i for i in range(20)]}, enf=True, strish=True),
     L("struct_20", obj({"m%02d" % i: (INT if i % 2 else STR) for i in range(20)}, ["m00", "m01"]), enf=True),
@@ -249,6 +254,8 @@ SOLO_COMPOSITES = [
     L("enum_untyped_arr", {"enum": [[1], [2, 3]]}, enf=False, sup=False),
     L("enum_untyped_obj", {"enum": [{"a": 1}, {"a": 2}]}, enf=False, sup=False),
     L("not_enum_int", {"type": "integer", "not": {"enum": [1, 2]}}, ff=False, enf=True),
+    L("not_enum_negint", {"type": "integer", "not": {"enum": [-1, -2, 7]}}, ff=False, enf=True),
+    L("enum_negint", {"type": "integer", "enum": [-1, 0, 1]}, enf=True),
     L("not_enum_untyped_int", {"not": {"enum": [1, 2]}}, ff=False, enf=False, sup=False),
     # validation keywords next to $ref: draft-07 ignores them (so does the oracle), typify applies them: outside the faithful / enforced fragments
     L("ref_sibling_required", {"$ref": "#/definitions/XObj", "required": ["n"]}, defs={"XObj": obj({"s": STR, "n": INT}, ["s"])}, enf=False, ff=False, sup=False),
@@ -792,4 +799,23 @@ def twins(tier):
     for en, sch in extra.items():
         out.append({"id": "twins[%s]@struct" % en, "doc": _doc({"T": sch}), "target": "T", "ff": True, "enf": en not in ("vec_vs_set", "map_vs_mapany"),
                     "strish": False, "shape": "twins:" + en, "ctx": "twins"})
+    return out
+
+
+
+def order_pairs(tier):
+    """two members in BOTH orders (conversion follows member order): flags and caches that one conversion sets must survive the next one"""
+    out = []
+    ids = ["str_pat", "str_max2", "uuid", "string", "date", "any", "integer", "enum_ab", "str_pat_max"]
+    for a in ids:
+        for b in ids:
+            if a == b:
+                continue
+            doc = _doc({"T": obj({"p": copy.deepcopy(LEAF[a]["schema"]), "q": copy.deepcopy(LEAF[b]["schema"])}, ["p"])})
+            out.append({"id": "order[%s,%s]@struct" % (a, b), "doc": doc, "target": "T", "ff": LEAF[a]["ff"] and LEAF[b]["ff"], "enf": LEAF[a]["enf"] and LEAF[b]["enf"],
+                        "strish": False, "shape": "order:%s,%s" % (a, b), "ctx": "order"})
+            if tier != "quick" or (a, b) in (("str_pat", "str_max2"), ("uuid", "string"), ("date", "str_max2"), ("any", "integer")):
+                ddoc = _doc({"A": copy.deepcopy(LEAF[a]["schema"]), "B": copy.deepcopy(LEAF[b]["schema"]), "T": obj({"x": {"$ref": "#/definitions/A"}, "y": {"$ref": "#/definitions/B"}})})
+                out.append({"id": "order[%s,%s]@defs" % (a, b), "doc": ddoc, "target": "T", "ff": LEAF[a]["ff"] and LEAF[b]["ff"], "enf": False,
+                            "strish": False, "shape": "order:%s,%s" % (a, b), "ctx": "order_defs"})
     return out
